@@ -114,8 +114,12 @@ func (a *adversary) act() {
 			h := pending[a.r.Intn(len(pending))]
 			b := s.peer.tree.ByHash[h]
 			if b != nil {
-				if a.r.Intn(3) == 0 {
+				if k := a.r.Intn(4); k == 0 {
 					send("block-genuine-for-outstanding-request", blockMsg(b.Msg(), a.r.Intn(2) == 0))
+				} else if k == 1 {
+					for i := 0; i < 3 && !c.dead; i++ {
+						send("block-genuine-repeated", blockMsg(b.Msg(), a.r.Intn(2) == 0))
+					}
 				} else {
 					// header of an outstanding trusted request, different body
 					body := []*wire.MsgTx{b.Txs[0], verifkit.Coinbase(31337, uint32(a.r.Intn(1000)))}
@@ -198,7 +202,7 @@ func TestVerif_C12(t *testing.T) {
 		}
 		for _, f := range s.finds {
 			sig := f.sig
-			if f.prop == "C01" {
+			if f.prop == "C01" || f.prop == "C13" {
 				sig = "C12/" + f.sig // trusted-side invariant broken in the presence of the adversary
 			} else if f.prop != "C12" {
 				rep.Event("other_property_findings:"+f.sig, 1)
